@@ -54,4 +54,42 @@ C03 = [
     _bm("hwloc_bitmap_weight", lis=3, cost=2),
     _bm("hwloc_bitmap_compare", lis=6, cost=5),
 ]
+
+# quantified-hypothesis clauses (bitmap.quant.h): witness directions of the boolean queries and the
+# ordering functions.  SAT needs a constant quantifier bound QB (bitmaps <= QB words): bounded stand-in.
+def _bq(fn, qb=32, lis=0, cost=60, defs=None, **kw):
+    d = {"QB": qb}; d.update(defs or {})
+    return Job(name=fn + "__q.sat", driver="bitmap.drv.c", entry="hq_" + fn, enforce=fn + "/" + fn + "__q",
+               min_lis=lis, cost=cost, family="bitmap", defines=d, label="bounded",
+               note="quantified hypothesis expanded for bitmaps <= %d words (SAT); loops closed by invariants" % qb, **kw)
+
+C03 += [
+    _bq("hwloc_bitmap_iszero", lis=2, cost=2),
+    _bq("hwloc_bitmap_isfull", lis=2, cost=2),
+    _bq("hwloc_bitmap_isequal", lis=6),
+    _bq("hwloc_bitmap_intersects", lis=6),
+    _bq("hwloc_bitmap_isincluded", lis=6),
+    _bq("hwloc_bitmap_compare", lis=6, defs={"Q_COMPARE": None}),
+    _bq("hwloc_bitmap_compare_first", lis=3, cost=90, defs={"Q_COMPARE_FIRST": None}),
+    _bq("hwloc_bitmap_singlify", lis=10, cost=90, defs={"Q_SINGLIFY": None}),
+]
+
+# the same quantified contracts with no quantifier bound on the SMT back end (z3 5.1): proof.
+# optional=True: a time-out of the SMT solver leaves the clause at its bounded stand-in and is
+# reported in the evidence, it never fails the check (an SMT *refutation* still counts).
+def _bz(fn, lis=0, cost=60, defs=None, timeout=600, tiers=("quick", "thorough"), **kw):
+    return Job(name=fn + "__q.z3", driver="bitmap.drv.c", entry="hq_" + fn, enforce=fn + "/" + fn + "__q",
+               min_lis=lis, cost=cost, family="bitmap", defines=dict(defs or {}), label="proof", solver="z3",
+               optional=True, timeout=timeout, tiers=tiers, canary_from=fn + "__q.sat",
+               note="quantified hypothesis, unbounded (z3 5.1)", **kw)
+
+C03 += [
+    _bz("hwloc_bitmap_iszero", lis=2, cost=5, timeout=300),
+    _bz("hwloc_bitmap_isfull", lis=2, cost=5, timeout=300),
+    _bz("hwloc_bitmap_isequal", lis=6, cost=70),
+    _bz("hwloc_bitmap_intersects", lis=6, cost=35),
+    _bz("hwloc_bitmap_isincluded", lis=6, cost=30),
+    _bz("hwloc_bitmap_singlify", lis=10, cost=100, defs={"Q_SINGLIFY": None}),
+    _bz("hwloc_bitmap_compare", lis=6, cost=400, defs={"Q_COMPARE": None}, timeout=1800, tiers=("thorough",)),
+]
 PROPS["C03"] = C03
